@@ -64,6 +64,13 @@ def check(case, stats):
     tags = set()
     touched = set()
     for idx, op in enumerate(case["ops"]):
+        if op[0] == "z":
+            # reset(): the store is empty again (every cell reads as zero, nothing of the old contents survives)
+            mem.reset()
+            ref.cells.clear()
+            writers.clear()
+            tags.add(f"{kind}:reset")
+            continue
         rw, n, addr = op[0], op[1], op[2]
         cls = ref.classify(addr, n)
         tags.add(f"{kind}:{rw}{n}:{cls}")
@@ -186,6 +193,9 @@ def strategy(kind, max_ops):
         ops = []
         reads = []
         for _ in range(n):
+            if ops and draw(st.integers(0, 39)) == 0:
+                ops.append(["z"])
+                continue
             if reads and draw(st.integers(0, 9)) < 4:
                 rn, ra = draw(st.sampled_from(reads[-6:]))
                 what = draw(st.sampled_from(["again", "again", "w@start", "w@end", "w-before", "w-alias", "w-inside"]))
